@@ -173,6 +173,20 @@ func C02(r *h.Run) {
 	// HTTP message vocabulary and near misses of them) ----
 	errorMetaWritten(r, rng.Fork("meta"), false, "error/metadata-not-written")
 
+	// ---- 1c. the handler's first Send failed before anything was written (the codec refused the
+	// message); the error the handler then returns is what the client receives ----
+	for _, proto := range protos {
+		cerr, _, p := failedFirstSendCall(proto, false)
+		in := map[string]any{"proto": proto, "kind": "server", "handler": "its first Send fails in the codec; it then returns data_loss 'after the failed send' with metadata X-E: e1"}
+		r.Eval("error_after_failed_send", proto)
+		if p != nil {
+			r.Fail(h.Failure{Key: "error/panic-or-hang", Family: "error_after_failed_send", What: fmt.Sprint(p), Input: in})
+			continue
+		}
+		r.Sample("error_after_failed_send", map[string]any{"in": in, "client_error": fmt.Sprint(cerr)})
+		checkError(r, "error_after_failed_send", in, cerr, connect.CodeDataLoss, "after the failed send", nil, http.Header{"X-E": {"e1"}})
+	}
+
 	// ---- 2. client decodes crafted status headers ----
 	for _, st := range []string{"1", "5", "16", "17", "4294967295", "05", "016"} {
 		for _, mh := range []string{"", "plain", "50%25%20off", "%E4%BD%A0%e5%a5%bd", "%zz%4", "a%0D%0Ab", "%00%01", "trailing%"} {
